@@ -131,7 +131,12 @@ class RuntimeContract:
         except Exception as e:  # pylint: disable=broad-except
             rep["spec_errors"].append(f"pre-state clause: {type(e).__name__}: {e}")
             return rep
-        old_env = copy.deepcopy(env)
+        old_env = {}
+        for _k, _v in env.items():
+            try:
+                old_env[_k] = copy.deepcopy(_v)
+            except Exception:  # pylint: disable=broad-except
+                old_env[_k] = _v   # objects that wrap C extension handles (cryptography keys) cannot be copied: old(...) of them is the object itself
         olds_e = [ex.eval_olds(old_env) for _, ex in self.ensures]
         olds_r = [ex.eval_olds(old_env) for _, ex in self.returns]
         exc: Optional[BaseException] = None
